@@ -206,6 +206,26 @@ func qAtomText(a *qAtom) string {
 		return fmt.Sprintf(`%s:"%s"`, a.K, a.Tok)
 	case "ftime", "ltime":
 		return tm(a.K)
+	case "lin": // field OP const +/- variables of the same stream:  id:7-@id@:   cport:920+@sport@   id::9-@id@
+		expr := fmt.Sprint(a.N)
+		for i, v := range []string{"id", "cport", "sport", "cbytes", "sbytes"} {
+			if i >= len(a.S) {
+				break
+			}
+			for m := a.S[i]; m > 0; m-- {
+				expr += "+@" + v + "@"
+			}
+			for m := a.S[i]; m < 0; m++ {
+				expr += "-@" + v + "@"
+			}
+		}
+		switch a.Tok {
+		case "ge":
+			return fmt.Sprintf("%s:%s:", a.Name, expr)
+		case "le":
+			return fmt.Sprintf("%s::%s", a.Name, expr)
+		}
+		return fmt.Sprintf("%s:%s", a.Name, expr)
 	case "sub_port":
 		return fmt.Sprintf("@s:cport:%d sport:@s:sport@", a.N)
 	case "sub_id":
